@@ -60,6 +60,10 @@ type Scenario struct {
 	WaitBg     bool      `json:"wait_bg,omitempty"`    // Wait is called with context.Background() (jobs keep the cancellable context)
 	// EmitGoexit: the emitter kills its goroutine (the scheduler loop) on its first report, as t.FailNow in a test emitter would
 	EmitGoexit bool `json:"emit_goexit,omitempty"`
+	// Probe > 0: a boundary probe with a wide limit - explored over the first
+	// Probe schedules of the preemption-bound-0 search only (reported as such,
+	// never counted as exhaustive)
+	Probe int `json:"probe,omitempty"`
 }
 
 func (s *Scenario) String() string {
@@ -102,6 +106,12 @@ func (s *Scenario) String() string {
 	}
 	if s.EmitGoexit {
 		f += " emit-goexit"
+	}
+	if s.Probe > 0 {
+		f += fmt.Sprintf(" probe/%d", s.Probe)
+		if len(js) > 6 {
+			js = append(js[:2], fmt.Sprintf("... %d jobs in all", len(s.Jobs)))
+		}
 	}
 	return fmt.Sprintf("N=%d%s [%s]", s.N, f, strings.Join(js, " "))
 }
